@@ -66,6 +66,10 @@ struct Scen {
 	kinds: Vec<&'static str>,
 	/// the commitment transaction that does not play role 1 (interned as 6)
 	min_depth: u32,
+	/// outpoints whose claim by the node under test is time-locked (HTLC timeouts), and the height
+	/// (relative to the base) from which such a claim can be broadcast
+	tl_outs: Vec<OutPoint>,
+	tl_height: u32,
 	other_commit: Option<Txid>,
 	/// transactions the node under test had broadcast before the snapshot was taken
 	seed_txs: Vec<Transaction>,
@@ -150,7 +154,7 @@ fn prep_fund(name: &str, nut: usize) -> Scen {
 		txs: vec![None, Some(tx), Some(theirs[0].clone()), None, Some(ours[0].clone())],
 		funding_txid, chan_id, hashes: vec![], failtrig: vec![], minh2: 0, funding_role: true, base_conf: 0,
 		kinds: vec!["", "funding", "counterparty_commitment", "", "holder_commitment"],
-		other_commit: None, seed_txs: vec![], min_depth: 3,
+		other_commit: None, seed_txs: vec![], min_depth: 3, tl_outs: vec![], tl_height: 0,
 	}
 }
 
@@ -165,7 +169,7 @@ fn route_with_cltv(from: &N, to: &N, amt: u64, final_cltv: u32) -> (PaymentPreim
 }
 
 /// Channel open, HTLCs pending in both directions: out1 (nut -> peer, non-dust, the peer knows the
-/// preimage), out2 (nut -> peer, dust), in1 (peer -> nut, nut has claimed it: preimage in the
+/// preimage), out2 (nut -> peer, dust), out3 (nut -> peer, non-dust, same expiry as out1), in1 (peer -> nut, nut has claimed it: preimage in the
 /// monitor). out1 expires at base height + EXP. If `force_close`, the node under test has already
 /// broadcast its own commitment. `holder` selects which commitment plays role 1.
 fn prep_open(name: &str, holder: bool, force_close: bool) -> Scen {
@@ -177,6 +181,9 @@ fn prep_open(name: &str, holder: bool, force_close: bool) -> Scen {
 	let h0 = nodes[0].best_block_info().1;
 	let (pre_out1, hash_out1, ..) = route_payment(&nodes[0], &[&nodes[1]], 3_000_000);
 	let (_pre_out2, hash_out2, ..) = route_payment(&nodes[0], &[&nodes[1]], 200_000);
+	// a second non-dust outbound HTLC with the same expiry: on the counterparty's commitment both
+	// timeouts are claimed by ONE aggregated transaction, which a preimage claim of out1 splits
+	let (_pre_out3, hash_out3, ..) = route_payment(&nodes[0], &[&nodes[1]], 3_500_000);
 	let (pre_in1, hash_in1) = route_with_cltv(&nodes[1], &nodes[0], 4_000_000, TEST_FINAL_CLTV + 66);
 	nodes[0].node.claim_funds(pre_in1);
 	nodes[1].node.claim_funds(pre_out1);
@@ -204,23 +211,27 @@ fn prep_open(name: &str, holder: bool, force_close: bool) -> Scen {
 	let mut txs: Vec<Option<Transaction>> = vec![None; 5];
 	let mut s = Scen {
 		name: name.to_string(), nut, nodes, mgr_bytes, mon_bytes, base_blocks, ucfg, txs: vec![],
-		funding_txid, chan_id, hashes: vec![hash_out1, hash_out2, hash_in1], failtrig: vec![2, 1, 0],
+		funding_txid, chan_id, hashes: vec![hash_out1, hash_out2, hash_in1, hash_out3], failtrig: if holder { vec![2, 1, 0, 0] } else { vec![2, 1, 0, 2] },
 		minh2: EXP + 1, funding_role: false, base_conf, kinds: vec![],
-		other_commit: Some(if holder { theirs[0].compute_txid() } else { ours[0].compute_txid() }), seed_txs, min_depth: 6,
+		other_commit: Some(if holder { theirs[0].compute_txid() } else { ours[0].compute_txid() }), seed_txs, min_depth: 6, tl_outs: vec![], tl_height: EXP,
 	};
 	if holder {
 		txs[1] = Some(ours[0].clone());
+		let mut timeouts = Vec::new();
 		for t in ours.iter().skip(1) {
-			if t.lock_time.to_consensus_u32() == expiry { txs[2] = Some(t.clone()); }
+			if t.lock_time.to_consensus_u32() == expiry { timeouts.push(t.clone()); }
 			if t.lock_time.to_consensus_u32() == 0 { txs[3] = Some(t.clone()); }
 		}
-		// the peer's preimage claim of out1 on our commitment: let the peer see it
+		// the peer's preimage claim of out1 on our commitment: let the peer see it; role 2 is our
+		// HTLC-timeout transaction for that same output
 		let b = create_dummy_block(s.nodes[1].best_block_hash(), 42, vec![ours[0].clone()]);
 		s.nodes[1].tx_broadcaster.clear();
 		connect_block(&s.nodes[1], &b);
 		let claims = s.nodes[1].tx_broadcaster.txn_broadcast();
 		for t in claims {
-			if spends(&t, &ours[0]) && txs[2].as_ref().map(|r2| r2.input[0].previous_output == t.input[0].previous_output).unwrap_or(false) {
+			if !spends(&t, &ours[0]) || t.input.len() != 1 { continue; }
+			if let Some(r2) = timeouts.iter().find(|r2| r2.input[0].previous_output == t.input[0].previous_output) {
+				txs[2] = Some(r2.clone());
 				txs[4] = Some(t);
 			}
 		}
@@ -256,6 +267,14 @@ fn prep_open(name: &str, holder: bool, force_close: bool) -> Scen {
 		s.kinds = vec!["", "counterparty_commitment", "timeout_claim", "preimage_claim", "counterparty_htlc_success"];
 	}
 	assert_eq!(base_h + EXP, expiry);
+	let role1 = txs[1].as_ref().unwrap().compute_txid();
+	for t in ours.iter().chain(theirs.iter()).chain(txs.iter().flatten()) {
+		if t.lock_time.to_consensus_u32() == expiry {
+			for i in t.input.iter() {
+				if i.previous_output.txid == role1 && !s.tl_outs.contains(&i.previous_output) { s.tl_outs.push(i.previous_output); }
+			}
+		}
+	}
 	s.txs = txs;
 	s
 }
@@ -766,7 +785,8 @@ fn main() {
 		let mut log: Vec<Value> = Vec::new();
 		log.push(json!({"ev":"reset","kind":sc["kind"],"hist":sc["hist"],"scen":name,"parent":sc["parent"],"txs":sc["txs"],
 			"targets":sc["targets"],"order":sc["order"],"ard":consts.anti_reorg_delay,"minh":(1..5).map(|r| scen.minh(r)).collect::<Vec<_>>(),
-			"funding_role":scen.funding_role,"failtrig":scen.failtrig,"base_conf":scen.base_conf,"min_depth":scen.min_depth,
+			"funding_role":scen.funding_role,"failtrig":scen.failtrig,"base_conf":scen.base_conf,"min_depth":scen.min_depth,"tl_height":scen.tl_height,
+			"tl_outs":scen.tl_outs.iter().map(|o| json!([scen.tx_idx(&o.txid), o.vout])).collect::<Vec<_>>(),
 			"reloads": sc["trans"].as_array().map(|t| t.iter().map(|x| x["reload"].as_bool().unwrap_or(false)).collect::<Vec<_>>()).unwrap_or_default(),
 			"inputs": (1..5).map(|r| scen.txs[r].as_ref().map(|t| t.input.iter().map(|i| json!([scen.tx_idx(&i.previous_output.txid), i.previous_output.vout])).collect::<Vec<_>>()).unwrap_or_default()).collect::<Vec<_>>()}));
 		let res = catch_unwind(AssertUnwindSafe(|| {
